@@ -775,6 +775,14 @@ fn main() {
             rep.sample(json!({"seq": seq}));
         }
     }
+    // the sequential part's verdict must not be lost to anything that happens in the concurrent part
+    if rep.violation_count() > 0 {
+        rep.set("states", execs);
+        rep.set("transitions", steps);
+        rep.set("concurrent", json!({"skipped": "the sequential part reported a violation"}));
+        rep.set("exhaustive", false);
+        rep.finish();
+    }
     let (cs, ca, csets, csets_total, ccap) = concurrent_part(&rep, &tpl, cli.tier, Instant::now() + Duration::from_secs(cli.tier.pick(200, 900)));
     rep.set("concurrent", json!({"schedules": cs, "actions": ca, "request_sets_fully_explored": csets, "request_sets": csets_total, "cap": ccap,
         "what": "multisets of 2 and 3 requests over {Ins1, Upd1, UpdB2, Del1, PkDupAt(2), Upd1Same, Ins12}: every order of their critical sections x every placement of each version's announcement task after its commit (gate at the start of broadcast_changes)"}));
